@@ -21,9 +21,12 @@ namespace {
 const int64_t Span = 7 * SM_PAGE_SIZE; // offsets used by a case are base .. base+Span
 enum : uint8_t { Absent = 0, Present = 1, Maybe = 2 }; // Maybe: released by freeDataUpto() but not reported gone
 
+// (buffers are static and re-zeroed per case: large allocations are slow under ASan)
+uint8_t StateBuf[Span], ByteBuf[Span], GenBuf[Span];
+char SrcBuf[Span + 1], DstBuf[Span + 1];
 struct Model {
-    std::vector<uint8_t> state, byte;
-    Model() : state(Span, Absent), byte(Span, 0) {}
+    uint8_t *state, *byte;
+    Model() : state(StateBuf), byte(ByteBuf) { memset(StateBuf, Absent, sizeof StateBuf); memset(ByteBuf, 0, sizeof ByteBuf); }
     bool anyNonAbsent(int64_t a, int64_t b) const { for (int64_t i = a; i < b; ++i) if (state[i] != Absent) return true; return false; }
     int64_t run(int64_t a, int64_t limit, bool certainOnly) const { int64_t i = a; while (i < limit && (state[i] == Present || (!certainOnly && state[i] == Maybe))) ++i; return i - a; }
 };
@@ -64,6 +67,7 @@ void run(Ctx &ctx, const std::string &w) {
     {
         mem_hdr h;
         std::vector<char *> pending; // node buffers handed out by NodeGet()
+        int64_t top = -1, lowPresent = -1;
         for (size_t n = 0; n < ops.size() && !dead; ++n) {
             const Op &o = ops[n];
             auto where = [&]() { return "step " + std::to_string(n) + " '" + std::string(1, o.code) + " " + std::to_string(o.rel) + " " + std::to_string(o.len) + "' (base " + std::to_string(base) + "): "; };
@@ -71,10 +75,10 @@ void run(Ctx &ctx, const std::string &w) {
             switch (o.code) {
             case 'W': {
                 if (o.len <= 0 || m.anyNonAbsent(o.rel, o.rel + o.len)) { ++skipped; break; } // caller contract: no overlap with data that is (or may be) in memory
-                std::vector<char> src(o.len);
+                char *src = SrcBuf;
                 for (int64_t i = 0; i < o.len; ++i) src[i] = content(n, o.rel + i);
                 const bool below = m.anyNonAbsent(o.rel + o.len, Span);
-                const bool ok = h.write(StoreIOBuffer((size_t)o.len, base + o.rel, src.data()));
+                const bool ok = h.write(StoreIOBuffer((size_t)o.len, base + o.rel, src));
                 if (!ok) { fail("write:refused", "write() of a non-overlapping range returned false"); break; }
                 for (int64_t i = 0; i < o.len; ++i) { m.state[o.rel + i] = Present; m.byte[o.rel + i] = (uint8_t)src[i]; }
                 ++nW; if (below) ++sparse; if (o.len > SM_PAGE_SIZE) ++multiPage;
@@ -93,8 +97,8 @@ void run(Ctx &ctx, const std::string &w) {
                 break; }
             case 'C': {
                 if (o.len <= 0 || o.rel >= Span || m.state[o.rel] != Present) { ++skipped; break; } // contract: first byte present
-                std::vector<char> dst(o.len + 1, 'Z');
-                const ssize_t got = h.copy(StoreIOBuffer((size_t)o.len, base + o.rel, dst.data()));
+                char *dst = DstBuf; memset(dst, 'Z', o.len + 1);
+                const ssize_t got = h.copy(StoreIOBuffer((size_t)o.len, base + o.rel, dst));
                 ++nC;
                 const int64_t lo = m.run(o.rel, o.rel + o.len, true), hi = m.run(o.rel, o.rel + o.len, false);
                 if (lo != hi) ++softCopies;
@@ -126,25 +130,28 @@ void run(Ctx &ctx, const std::string &w) {
                 if (p && !p->write_pending) pending.push_back(h.NodeGet(p));
                 break; }
             case 'Q': for (char *d : pending) memNodeWriteComplete(d); pending.clear(); break;
-            case 'Z': pending.clear(); h.freeContent(); std::fill(m.state.begin(), m.state.end(), (uint8_t)Absent); break;
+            case 'Z': pending.clear(); h.freeContent(); memset(m.state, Absent, Span); break;
             }
             if (dead) break;
             // invariants after every step
-            int64_t top = -1, lowPresent = -1;
-            for (int64_t i = Span - 1; i >= 0; --i) if (m.state[i] != Absent) { top = i; break; }
-            for (int64_t i = 0; i < Span; ++i) if (m.state[i] == Present) { lowPresent = i; break; }
+            if (o.code == 'W' || o.code == 'F' || o.code == 'Z') { // only these change the model
+                top = -1; lowPresent = -1;
+                const uint8_t *st = m.state;
+                for (int64_t i = Span - 1; i >= 0; --i) if (st[i] != Absent) { top = i; break; }
+                for (int64_t i = 0; i < Span; ++i) if (st[i] == Present) { lowPresent = i; break; }
+            }
             const int64_t expEnd = top < 0 ? 0 : base + top + 1;
             if (h.endOffset() != expEnd) { fail("endOffset:value", "endOffset() is " + std::to_string(h.endOffset()) + ", highest byte in memory + 1 is " + std::to_string(expEnd)); break; }
             if (lowPresent >= 0 && h.lowestOffset() > base + lowPresent) { fail("lowestOffset:above-data", "lowestOffset() " + std::to_string(h.lowestOffset()) + " is above written byte " + std::to_string(base + lowPresent)); break; }
-            if (o.code == 'F' || o.code == 'W' || n + 1 == ops.size()) {
+            if (o.code == 'F' || n + 1 == ops.size() || (o.code == 'W' && n % 4 == 0)) {
                 // sweep: every maximal run of present bytes must be reported contiguous and read back exactly
                 for (int64_t i = 0; i < Span && !dead;) {
                     if (m.state[i] != Present) { ++i; continue; }
                     const int64_t len = m.run(i, Span, true);
                     if (!h.hasContigousContentRange(Range<int64_t>(base + i, base + i + len))) { fail(o.code == 'F' ? "free:lost-data" : "sweep:not-contiguous", "written range +" + std::to_string(i) + "..+" + std::to_string(i + len) + " is no longer reported contiguous"); break; }
-                    std::vector<char> dst(len);
-                    const ssize_t got = h.copy(StoreIOBuffer((size_t)len, base + i, dst.data()));
-                    if (got < len || memcmp(dst.data(), &m.byte[i], len) != 0) { fail(o.code == 'F' ? "free:lost-data" : "sweep:content", "written range +" + std::to_string(i) + "..+" + std::to_string(i + len) + " reads back " + std::to_string(got) + " bytes / different bytes"); break; }
+                    char *dst = DstBuf;
+                    const ssize_t got = h.copy(StoreIOBuffer((size_t)len, base + i, dst));
+                    if (got < len || memcmp(dst, &m.byte[i], len) != 0) { fail(o.code == 'F' ? "free:lost-data" : "sweep:content", "written range +" + std::to_string(i) + "..+" + std::to_string(i + len) + " reads back " + std::to_string(got) + " bytes / different bytes"); break; }
                     i += len;
                 }
             }
@@ -165,7 +172,7 @@ std::string gen(Rng &r) {
     const long long base = bases[r.below(sizeof bases / sizeof *bases)];
     std::string s = "B " + std::to_string(base);
     // generator-side approximation of the model: 0 absent, 1 present, 2 released (maybe kept)
-    std::vector<uint8_t> st(Span, 0);
+    uint8_t *st = GenBuf; memset(st, 0, Span);
     const int nops = 4 + (int)r.below(r.chance(1, 4) ? 120 : 40);
     int64_t cursor = r.chance(1, 2) ? 0 : (int64_t)r.below(SM_PAGE_SIZE * 2); // sequential-append position
     auto page = [&](int64_t v) { static const int64_t d[] = {-2, -1, 0, 1, 2}; int64_t x = (int64_t)r.below(7) * SM_PAGE_SIZE + d[r.below(5)]; (void)v; return std::max<int64_t>(0, std::min<int64_t>(Span - 1, x)); };
@@ -210,7 +217,7 @@ std::string gen(Rng &r) {
             if (q < 4) s += " N " + std::to_string(r.below(Span));
             else if (q < 6) s += " P " + std::to_string(r.chance(1, 2) ? page(0) : (int64_t)r.below(Span));
             else s += " Q";
-        } else if (r.chance(1, 6)) { s += " Z"; std::fill(st.begin(), st.end(), (uint8_t)0); cursor = 0; }
+        } else if (r.chance(1, 6)) { s += " Z"; memset(st, 0, Span); cursor = 0; }
     }
     return s;
 }
